@@ -22,26 +22,40 @@ ELLIPSIS_FORMS = ('plain', 'ell_first', 'ell_last')
 # --------------------------------------------------------------------------
 # elements
 # --------------------------------------------------------------------------
-def _n(v):
-    return C.num(float(v))
+UNREPRESENTABLE = 10 ** 40        # stands for a finite value that is no multiple of 1/scale
 
 
-def elem_term(kind, el):
+def _n(v, scale=1):
+    """a coordinate as the model's num; with scale > 1 the value is multiplied by scale first
+    (exact for the dyadic values the multi-source family uses); a finite value that is still
+    not integral then becomes a sentinel no generated coordinate equals"""
+    if scale == 1:
+        return C.num(float(v))
+    if isinstance(v, (int, np.integer)):
+        return C.Some(int(v) * scale)
+    f = float(v)
+    if not math.isfinite(f):
+        return None
+    f *= scale
+    return C.Some(int(f)) if f == int(f) else C.Some(UNREPRESENTABLE)
+
+
+def elem_term(kind, el, scale=1):
     """Python element (nested lists / None) -> option elem"""
     if el is None:
         return None
     lev = G.LEVELS[kind]
     if lev == 0:
-        return C.Some(C.Rec('EPoint', _n(el[0]), _n(el[1])))
+        return C.Some(C.Rec('EPoint', _n(el[0], scale), _n(el[1], scale)))
     if lev == 1:
-        return C.Some(C.Rec('ECoords', [_n(v) for v in el]))
+        return C.Some(C.Rec('ECoords', [_n(v, scale) for v in el]))
     if lev == 2:
-        return C.Some(C.Rec('EParts', [[_n(v) for v in p] for p in el]))
-    return C.Some(C.Rec('EPolys', [[[_n(v) for v in r] for r in p] for p in el]))
+        return C.Some(C.Rec('EParts', [[_n(v, scale) for v in p] for p in el]))
+    return C.Some(C.Rec('EPolys', [[[_n(v, scale) for v in r] for r in p] for p in el]))
 
 
-def elems_term(kind, els):
-    return [elem_term(kind, e) for e in els]
+def elems_term(kind, els, scale=1):
+    return [elem_term(kind, e, scale) for e in els]
 
 
 UNAVAILABLE = {}          # what -> count; reported as internal-unavailable:<what>, never a violation
@@ -135,15 +149,15 @@ def _bits(buf, nbits):
     return [bool((by[i // 8] >> (i % 8)) & 1) for i in range(min(nbits, len(by) * 8))]
 
 
-def _vals(buf, dt, upto):
+def _vals(buf, dt, upto, scale=1):
     vals = np.frombuffer(buf, dtype=dt) if buf is not None else np.array([], dtype=dt)
     vals = vals[:upto]
     if np.issubdtype(vals.dtype, np.floating):
-        return [C.num(float(v)) for v in vals]
-    return [C.Some(int(v)) for v in vals]
+        return [_n(float(v), scale) for v in vals]
+    return [C.Some(int(v) * scale) for v in vals]
 
 
-def export(kind, arr):
+def export(kind, arr, scale=1):
     """the buffers of the arrow array behind `arr` as the model's record (RList / RFix), or
     None (counted) when the storage is not the list / fixed-size-binary layout the model
     describes.  Nothing about the layout is predicted: the kernel only asserts
@@ -163,7 +177,7 @@ def export(kind, arr):
                 _unavailable('fixed-size-binary-layout')
                 return None
             return C.Rec('RFix', C.Rec('Build_fixarr', C.Nat(off), C.Nat(n), valid,
-                                       _vals(bufs[1], dt, 2 * (off + n))))
+                                       _vals(bufs[1], dt, 2 * (off + n), scale)))
         typ, lev, large = data.type, 0, False
         while pa.types.is_list(typ) or pa.types.is_large_list(typ):
             large = large or pa.types.is_large_list(typ)
@@ -180,7 +194,7 @@ def export(kind, arr):
             offs.append([C.Nat(int(x)) for x in o])
             need = int(o[-1]) if len(o) else 0
         return C.Rec('RList', C.Rec('Build_listarr', C.Nat(off), C.Nat(n), valid, offs,
-                                    _vals(bufs[-1], dt, need)))
+                                    _vals(bufs[-1], dt, need, scale)))
     except Exception:  # noqa: BLE001
         _unavailable('buffer-export')
         return None
